@@ -14,5 +14,5 @@ git apply -R $D/out/patch.diff || { echo "cannot reverse"; exit 2; }
 echo "== demo WITHOUT change (expect ok)"; go test -vet=off -count=1 $DEMO 2>&1 | grep -E "^(ok|FAIL|---|panic)" | head -5
 git apply $D/out/patch.diff
 echo "== our checks with VERIF_REPO=$D/repo"
-cd /verif; for c in "$@"; do /usr/bin/time -f "%es" env VERIF_REPO=$D/repo ./check $c --tier quick 2>&1 | grep -E "VIOLATION|KNOWN|rc=|^[0-9.]+s$"; done
-cd /verif && git checkout -- evidence/ lean/MW/Gen/ 2>/dev/null; true
+cd ${VERIF_ROOT:-/verif}; for c in "$@"; do /usr/bin/time -f "%es" env VERIF_REPO=$D/repo ./check $c --tier quick 2>&1 | grep -E "VIOLATION|KNOWN|rc=|^[0-9.]+s$"; done
+cd ${VERIF_ROOT:-/verif} && git checkout -- evidence/ lean/MW/Gen/ 2>/dev/null; true
